@@ -98,8 +98,9 @@ def run(rep, facts):
             a0 = ir.peel(e[2][0])
             if a0[0] == 'field' and a0[2] == 'sema' and ir.peel(a0[1])[0] == 'param':
                 kind = "clone of self.sema"
-        if e[0] == 'call' and e[1] == "async_lock::Semaphore::new":
-            kind = "the one Semaphore::new"
+        in_clone = bool(b.raw.get("impl_trait")) and F.norm(b.raw["impl_trait"]) == "std::clone::Clone"
+        if e[0] == 'call' and e[1] == "async_lock::Semaphore::new" and not in_clone:
+            kind = "the one Semaphore::new"     # a clone must share, never create (also when both go through one private constructor)
         if kind:
             rep.ok("R13.2", "runner-sema[%s]" % b.npath, "sema <- " + kind, loc)
         else:
